@@ -578,6 +578,10 @@ func nilnessAt(v ssa.Value, blk *ssa.BasicBlock, seen map[ssa.Value]bool) Nilnes
 		return NonNil
 	case *ssa.ChangeInterface:
 		return nilnessAt(x.X, blk, seen)
+	case *ssa.UnOp:
+		if g, ok := x.X.(*ssa.Global); ok && x.Op == token.MUL && globalNonNil[g] {
+			return NonNil
+		}
 	case *ssa.Call:
 		if o := CalleeObj(x); o != nil && o.Pkg() != nil {
 			switch o.Pkg().Path() + "." + o.Name() {
@@ -624,6 +628,36 @@ func nilnessAt(v ssa.Value, blk *ssa.BasicBlock, seen map[ssa.Value]bool) Nilnes
 		}
 	}
 	return MaybeNil
+}
+
+// globalNonNil holds package-level variables every store to which (in the
+// whole program) is a non-nil value: sentinel errors such as io.EOF or the
+// repo's Err* variables. Filled by ComputeGlobalFacts.
+var globalNonNil = map[*ssa.Global]bool{}
+
+// ComputeGlobalFacts scans all functions for stores to globals.
+func (p *Program) ComputeGlobalFacts() {
+	stores := map[*ssa.Global][]ssa.Value{}
+	for fn := range p.AllFns {
+		Instrs(fn, func(in ssa.Instruction) {
+			if st, ok := in.(*ssa.Store); ok {
+				if g, ok := st.Addr.(*ssa.Global); ok {
+					stores[g] = append(stores[g], st.Val)
+				}
+			}
+		})
+	}
+	for g, vals := range stores {
+		all := true
+		for _, v := range vals {
+			if nilnessAt(v, nil, map[ssa.Value]bool{}) != NonNil {
+				all = false
+			}
+		}
+		if all {
+			globalNonNil[g] = true
+		}
+	}
 }
 
 // ---------- provenance ----------
